@@ -121,8 +121,9 @@ def make_harness(prog, n, which, non_ascii):
         me = Ref(Cell(Agg('ReplHighlighter', None, [])))
         out = it.call(HL, [me, text, cursor])
         cur = it.concretize(cursor)
-        lexed = it.ghost['scan'][-1] if it.ghost['scan'] else None
-        if lexed is None or lexed.var != 0:
+        # the oracle's token list: the real lexer on the same text (memoised: free when highlight already scanned)
+        lexed = it.do_call('lex::scan', [text], None)
+        if lexed.var != 0:
             tokens = None
         else:
             tokens = [(t.f[0].f[0], t.f[0].f[1], TT[t.f[1].var]) for t in lexed.f[0]]
@@ -226,7 +227,7 @@ def run(chk, ws, prog, tier, replays):
             h, on_panic = make_harness(prog, k, 'both', non_ascii)
             name = 'highlight+check/n=%d/%s' % (k, 'ascii+8 non-ascii representatives' if non_ascii else 'ascii')
             print('  harness %s' % name, flush=True)
-            res = explore(prog, h, opts={'on_panic': on_panic})
+            res = explore(prog, h, opts={'on_panic': on_panic, 'paranoid': k <= 2})
             chk.add_result(name, res, FUNCTIONS, {'text_chars': k, 'alphabet': 'per position: symbolic 7-bit ASCII' + (' or one of U+00E9 U+00D7 U+00A0 U+03BB U+2003 U+3042 U+FF08 U+1F600' if non_ascii else ''),
                                                    'cursor': 'symbolic usize in 0..=bytes+2'})
             for v in res.violations:
